@@ -1,6 +1,7 @@
 package harness
 
 import (
+	"fmt"
 	"testing"
 	"time"
 )
@@ -24,6 +25,16 @@ func (h *NetH) hopRecv(at, from int, p Pkt) bool {
 func (h *NetH) hopAck(at, from int, p Pkt, ack string) bool {
 	h.UpdateClient(at, from)
 	return h.Ack(at, p, ack, ProofSpec{from, ackKey(p)}, h.latestKnown(at, from))
+}
+
+// hopRecvAt / hopAckAt replay a message with the proof at an earlier height
+// (the height the first, successful submission used: the fact was true then
+// and the client still knows that height)
+func (h *NetH) recvAt(at, from int, p Pkt, height uint64) bool {
+	return h.Recv(at, p, ProofSpec{from, commitKey(p)}, height)
+}
+func (h *NetH) ackAt(at, from int, p Pkt, ack string, height uint64) bool {
+	return h.Ack(at, p, ack, ProofSpec{from, ackKey(p)}, height)
 }
 
 const mockAck = "mock acknowledgement"
@@ -133,35 +144,51 @@ func famC02(t *testing.T) []netFamily {
 			for s := uint64(1); s <= 4; s++ {
 				ps = append(ps, h.sendOK(0, Pkt{s, A, B, "", "tibcmock", "~p" + string(rune('0'+s))}))
 			}
-			h.hopRecv(1, 0, ps[1]) // out of order: 2 first
-			h.hopRecv(1, 0, ps[1]) // duplicate
-			h.hopRecv(1, 0, ps[0])
+			h.UpdateClient(1, 0)
+			h0 := h.latestKnown(1, 0) // all four commitments are provable at this height, for good
+			h.recvAt(1, 0, ps[1], h0) // out of order: 2 first
+			h.recvAt(1, 0, ps[1], h0) // duplicate
+			h.recvAt(1, 0, ps[0], h0)
 			h.hopAck(0, 1, ps[0], mockAck)
-			h.hopRecv(1, 0, ps[0]) // duplicate after ack
+			h.recvAt(1, 0, ps[0], h0) // duplicate after ack (old proof still valid)
+			h.hopRecv(1, 0, ps[0])    // duplicate after ack (commitment gone at the new height)
 			h.hopAck(0, 1, ps[1], mockAck)
 			h.Clean(0, CPkt{2, "", B, ""})
 			h.UpdateClient(1, 0)
 			h.RecvClean(1, CPkt{2, A, B, ""}, ProofSpec{0, cleanKey(A, B)}, h.latestKnown(1, 0))
-			h.hopRecv(1, 0, ps[0]) // duplicate after its receipt was cleaned
-			h.hopRecv(1, 0, ps[1]) // seq == clean point
-			h.hopRecv(1, 0, ps[2]) // clean point + 1: first delivery
-			h.hopRecv(1, 0, ps[2])
+			h.recvAt(1, 0, ps[0], h0) // duplicate after its receipt was cleaned
+			h.recvAt(1, 0, ps[1], h0) // seq == clean point, receipt cleaned
+			h.recvAt(1, 0, ps[2], h0) // clean point + 1: first delivery
+			h.recvAt(1, 0, ps[2], h0)
 			q := ps[3]
 			q.Data = "~other"
-			h.hopRecv(1, 0, q) // same key, other data
-			h.hopRecv(1, 0, ps[3])
+			h.recvAt(1, 0, q, h0) // same key, other data
+			h.recvAt(1, 0, ps[3], h0)
+			h.recvAt(1, 0, ps[3], h0)
 		}},
 		{"duplicate-on-relay-hop", func(h *NetH) {
 			A, B, C := h.names[0], h.names[1], h.names[2]
 			h.SetRules(1, []string{"*,*,*"})
 			p := h.sendOK(0, Pkt{1, A, C, B, "tibcmock", "~r"})
-			h.hopRecv(1, 0, p)
-			h.hopRecv(1, 0, p)
-			h.hopRecv(2, 1, p)
-			h.hopRecv(2, 1, p)
+			h.UpdateClient(1, 0)
+			hb := h.latestKnown(1, 0)
+			h.recvAt(1, 0, p, hb)
+			h.recvAt(1, 0, p, hb)
+			h.UpdateClient(2, 1)
+			hc := h.latestKnown(2, 1)
+			h.recvAt(2, 1, p, hc)
+			h.recvAt(2, 1, p, hc)
 			h.hopAck(1, 2, p, mockAck)
-			h.hopRecv(1, 0, p) // after the relay dropped its commitment
-			h.hopRecv(2, 1, p)
+			h.recvAt(1, 0, p, hb) // after the relay dropped its commitment
+			h.recvAt(2, 1, p, hc)
+			h.hopAck(0, 1, p, mockAck)
+			h.Clean(0, CPkt{1, "", C, B})
+			h.UpdateClient(1, 0)
+			h.RecvClean(1, CPkt{1, A, C, B}, ProofSpec{0, cleanKey(A, C)}, h.latestKnown(1, 0))
+			h.UpdateClient(2, 1)
+			h.RecvClean(2, CPkt{1, A, C, B}, ProofSpec{1, cleanKey(A, C)}, h.latestKnown(2, 1))
+			h.recvAt(1, 0, p, hb) // after cleanup on the relay
+			h.recvAt(2, 1, p, hc) // after cleanup on the destination
 		}},
 	}
 }
@@ -273,6 +300,8 @@ func famC10(t *testing.T) []netFamily {
 				ps = append(ps, h.sendOK(0, Pkt{s, A, B, "", "tibcmock", "~p" + string(rune('0'+s))}))
 			}
 			h.Clean(0, CPkt{1, "", B, ""}) // nothing acknowledged yet
+			h.UpdateClient(1, 0)
+			hOld := h.latestKnown(1, 0)
 			for _, i := range []int{0, 2, 3} { // ack 1, 3, 4 (2 and 5 outstanding)
 				h.hopRecv(1, 0, ps[i])
 				h.hopAck(0, 1, ps[i], mockAck)
@@ -293,20 +322,47 @@ func famC10(t *testing.T) []netFamily {
 			h.RecvClean(1, CPkt{1, A, B, ""}, ProofSpec{0, cleanKey(A, B)}, ht)
 			h.RecvClean(1, CPkt{1, A, B, ""}, ProofSpec{0, cleanKey(A, B)}, ht)
 			h.hopRecv(1, 0, ps[0])          // refused for good
+			h.recvAt(1, 0, ps[0], hOld)     // ... also with the proof that was valid when it was first delivered
 			h.hopAck(0, 1, ps[0], mockAck)  // refused for good
 			h.hopRecv(1, 0, ps[1])          // 2 still deliverable
 			h.hopAck(0, 1, ps[1], mockAck)
 			h.Clean(0, CPkt{4, "", B, ""})
 			h.UpdateClient(1, 0)
 			h.RecvClean(1, CPkt{4, A, B, ""}, ProofSpec{0, cleanKey(A, B)}, h.latestKnown(1, 0))
+			for _, q := range ps[:4] {
+				h.recvAt(1, 0, q, hOld) // every sequence up to the clean point, old proofs
+			}
 			h.hopRecv(1, 0, ps[4])
+		}},
+		{"clean-with-two-digit-sequences-and-out-of-order-acks", func(h *NetH) {
+			A, B := h.names[0], h.names[1]
+			var ps []Pkt
+			for s := uint64(1); s <= 12; s++ {
+				ps = append(ps, h.sendOK(0, Pkt{s, A, B, "", "tibcmock", fmt.Sprintf("~q%d", s)}))
+			}
+			for _, i := range []int{0, 1, 2, 3, 4, 9, 10} {
+				h.hopRecv(1, 0, ps[i])
+			}
+			for _, i := range []int{0, 2, 3, 4, 10} { // 2 delivered but unacknowledged; 6..9, 12 in flight
+				h.hopAck(0, 1, ps[i], mockAck)
+			}
+			h.Clean(0, CPkt{5, "", B, ""})  // 2 is still live
+			h.Clean(0, CPkt{11, "", B, ""}) // so are 6..10
+			h.Clean(0, CPkt{1, "", B, ""})
+			h.hopAck(0, 1, ps[1], mockAck)
+			h.Clean(0, CPkt{5, "", B, ""})
+			h.hopAck(0, 1, ps[9], mockAck)
+			h.Clean(0, CPkt{10, "", B, ""}) // 6..9 live
+			h.Clean(0, CPkt{11, "", B, ""})
 		}},
 		{"clean-through-relay", func(h *NetH) {
 			A, B, C := h.names[0], h.names[1], h.names[2]
 			h.SetRules(1, []string{"*,*,*"})
 			p := h.sendOK(0, Pkt{1, A, C, B, "tibcmock", "~r1"})
 			h.hopRecv(1, 0, p)
+			hb := h.latestKnown(1, 0)
 			h.hopRecv(2, 1, p)
+			hc := h.latestKnown(2, 1)
 			h.UpdateClient(2, 1)
 			h.RecvClean(2, CPkt{1, A, C, B}, ProofSpec{1, cleanKey(A, C)}, h.latestKnown(2, 1)) // nothing cleaned yet
 			h.hopAck(1, 2, p, mockAck)
@@ -319,6 +375,8 @@ func famC10(t *testing.T) []netFamily {
 			h.RecvClean(2, CPkt{1, A, C, B}, ProofSpec{1, cleanKey(A, C)}, h.latestKnown(2, 1))
 			h.hopRecv(1, 0, p)
 			h.hopRecv(2, 1, p)
+			h.recvAt(1, 0, p, hb)
+			h.recvAt(2, 1, p, hc)
 		}},
 	}
 }
@@ -360,7 +418,21 @@ func famC11(t *testing.T) []netFamily {
 		}}
 	}
 	A, C := "testchain0", "testchain2"
+	refusedThenAllowed := netFamily{"refused-then-rules-changed-then-replayed", func(h *NetH) {
+		A, B, C := h.names[0], h.names[1], h.names[2]
+		h.SetRules(1, []string{A + "," + C + ",NFT"})
+		p := h.sendOK(0, Pkt{1, A, C, B, "tibcmock", "~refuse-me"})
+		h.UpdateClient(1, 0)
+		hb := h.latestKnown(1, 0)
+		h.recvAt(1, 0, p, hb) // refused: error acknowledgement
+		h.hopAck(0, 1, p, unauthAck)
+		h.SetRules(1, []string{"*,*,*"})
+		h.recvAt(1, 0, p, hb) // the same message again, now that the rules would allow it
+		h.hopRecv(1, 0, p)
+		h.hopRecv(2, 1, p)
+	}}
 	return []netFamily{
+		refusedThenAllowed,
 		mk("allowed-exact", []string{A + "," + C + ",tibcmock"}, "tibcmock", true),
 		mk("allowed-wildcards", []string{"*,*,*"}, "tibcmock", true),
 		mk("refused-no-rules", nil, "tibcmock", true),
